@@ -1,10 +1,35 @@
 /-
   C09/Theorems — the ledger for property C09.  Every `theorem` in this file is audited
   (`#print axioms` ⊆ {propext, Classical.choice, Quot.sound}) on every run.
+
+  Shape: `Model.m E r args = Spec.m E r args` for all receivers and argument lists under explicit side
+  conditions; the complement of each side condition is a deviation region of the driver, with a
+  kernel-checked witness (`example … := by decide`) below.
 -/
-import OttoVerif.C09.Spec
+import OttoVerif.C09.Lemmas
 namespace OttoVerif.C09.Thm
-open OttoVerif.F64 OttoVerif.Str OttoVerif.C05 OttoVerif.C09
+open OttoVerif.F64 OttoVerif.Str OttoVerif.C05 OttoVerif.C09 OttoVerif.C09.Lem
+
+/-! ## Side conditions -/
+
+/-- int-kinded argument values stay below 2^53, so that float64(i) is exact (an `int64` of 2^53+1 is
+    not a Number value an ES5 program can hold) -/
+def SmallInt : Val → Prop
+  | .int _ i => i.natAbs < 2^53
+  | _ => True
+
+/-- a []uint16 receiver has no lone surrogate (complement: region `lone_surrogate`) -/
+def NoLone : Recv → Prop
+  | .val16 us => U (bytesOfUnits us) = us
+  | _ => True
+
+/-- saturation of an extended integer to int64 -/
+def sat64 : EInt → Int
+  | .ninf => minInt64
+  | .pinf => maxInt64
+  | .fin i => if i ≥ 2^63 then maxInt64 else if i ≤ -(2^63 : Int) then minInt64 else i
+
+/-! ## trim_set -/
 
 /-- trim_set: the cut set handed to strings.Trim (builtinStringTrimWhitespace) is exactly
     ES5 §7.2 WhiteSpace ∪ §7.3 LineTerminator. -/
@@ -13,5 +38,643 @@ theorem trim_set (u : Nat) : trimWhitespace.contains u = Spec.isWhite u := by
   rw [Bool.eq_iff_iff]
   simp only [Bool.or_eq_true, Bool.and_eq_true, beq_iff_eq, decide_eq_true_eq]
   omega
+
+/-! ## Positions: Value.number().int64 against ToInteger, and the clamps (encoding-independent) -/
+
+theorem toNumber_eq (E : C05.Env) (v : Val) : C05.Spec.toNumber E v = toFloat E v := by
+  cases v <;> rfl
+
+theorem truncInt_ofInt_small (i : Int) (h : i.natAbs < 2^53) : truncInt (ofInt i) = i := by
+  simp [ofInt, h, truncInt, truncAbs]; split <;> omega
+
+theorem numberOfFloat_sat (f : FV) :
+    (numberOfFloat f).i = sat64 (EInt.ofNumber f) := by
+  cases f with
+  | nan => simp [numberOfFloat, sat64, EInt.ofNumber]
+  | inf s => cases s <;> simp [numberOfFloat, sat64, EInt.ofNumber]
+  | fin s m e =>
+    simp only [numberOfFloat, sat64, EInt.ofNumber]
+    split
+    · simp
+    · split <;> simp
+
+/-- C09.number_sat: Value.number().int64 is ToInteger saturated to int64 -/
+theorem number_sat (E : Env) (v : Val) (h : SmallInt v) : (number E v).i = sat64 (Spec.toInteger E v) := by
+  have gen : (numberOfFloat (toFloat E.c5 v)).i = sat64 (Spec.toInteger E v) := by
+    rw [numberOfFloat_sat]; unfold Spec.toInteger; rw [toNumber_eq]
+  have small : ∀ k i, i.natAbs < 2^53 → sat64 (Spec.toInteger E (.int k i)) = i := by
+    intro k i hi
+    have : Spec.toInteger E (.int k i) = .fin i := by
+      unfold Spec.toInteger
+      rw [toNumber_eq]
+      simp only [toFloat]
+      have := truncInt_ofInt_small i hi
+      simp only [ofInt, hi, if_true, EInt.ofNumber] at this ⊢
+      rw [this]
+    rw [this]; simp only [sat64]; split
+    · omega
+    · split <;> omega
+  cases v with
+  | int k i =>
+    simp only [SmallInt] at h
+    cases k <;> first | (simp only [number]; exact (small _ i h).symm) | exact gen
+  | _ => exact gen
+
+theorem clamp_slice (x : EInt) (L : Int) (h0 : 0 ≤ L) (h1 : L < 2^62) :
+    valueToRangeIndex (sat64 x) L false = Spec.relIndex L x := by
+  cases x with
+  | ninf => simp [sat64, valueToRangeIndex, Spec.relIndex, minInt64]; omega
+  | pinf => simp [sat64, valueToRangeIndex, Spec.relIndex, maxInt64]; omega
+  | fin i =>
+    simp only [sat64, valueToRangeIndex, Spec.relIndex, minInt64, maxInt64, Int.max_def, Int.min_def, Bool.false_eq_true, if_false, if_true]
+    repeat' split
+    all_goals omega
+
+theorem clamp_substring (x : EInt) (L : Int) (h0 : 0 ≤ L) (h1 : L < 2^62) :
+    valueToRangeIndex (sat64 x) L true = Spec.clamp x 0 L := by
+  cases x with
+  | ninf => simp [sat64, valueToRangeIndex, Spec.clamp, minInt64]; omega
+  | pinf => simp [sat64, valueToRangeIndex, Spec.clamp, maxInt64]; omega
+  | fin i =>
+    simp only [sat64, valueToRangeIndex, Spec.clamp, minInt64, maxInt64, Int.max_def, Int.min_def, Bool.false_eq_true, if_false, if_true]
+    repeat' split
+    all_goals omega
+
+theorem clamp_charAt (x : EInt) (L : Int) (h1 : L < 2^62) :
+    (0 ≤ sat64 x ∧ sat64 x < L) ↔ (∃ p, x = .fin p ∧ 0 ≤ p ∧ p < L ∧ sat64 x = p) := by
+  cases x with
+  | ninf => simp [sat64, minInt64]
+  | pinf => simp [sat64, maxInt64]; omega
+  | fin i =>
+    simp only [sat64, minInt64, maxInt64, EInt.fin.injEq]
+    constructor
+    · intro h; refine ⟨i, rfl, ?_⟩; repeat' split at h
+      all_goals (repeat' split); all_goals omega
+    · rintro ⟨p, rfl, hp⟩; repeat' split at hp
+      all_goals (repeat' split); all_goals omega
+/-! ## charAt / charCodeAt on String objects -/
+
+theorem strLength_eq (s : List Nat) : strLength s = (U s).length := by
+  unfold strLength; split
+  · rename_i h; rw [U_ascii s h]
+  · rfl
+
+theorem strAt_eq (s : List Nat) (i : Nat) : strAt s i = (U s).getD i 0 := by
+  unfold strAt; split
+  · rename_i h; rw [U_ascii s h]
+  · rfl
+
+/-- the unit found by stringAt, or none when the position is out of range -/
+theorem stringAt_cases (E : Env) (s : List Nat) (v : Val) (hs : SmallInt v) (hl : ((U s).length : Int) < 2^62) :
+    (∃ p : Int, Spec.toInteger E v = .fin p ∧ 0 ≤ p ∧ p < (U s).length ∧
+        stringAt s (number E v).i = (U s).getD p.toNat 0) ∨
+    ((∀ p : Int, Spec.toInteger E v = .fin p → p < 0 ∨ p ≥ (U s).length) ∧ stringAt s (number E v).i = runeError) := by
+  rw [number_sat E v hs]
+  unfold stringAt
+  rw [strLength_eq]
+  by_cases hin : 0 ≤ sat64 (Spec.toInteger E v) ∧ sat64 (Spec.toInteger E v) < ((U s).length : Int)
+  · left
+    obtain ⟨p, hx, h0, h1, hp⟩ := (clamp_charAt _ _ hl).1 hin
+    refine ⟨p, hx, h0, h1, ?_⟩
+    rw [if_pos hin, strAt_eq, hp]
+  · right
+    refine ⟨?_, by rw [if_neg hin]⟩
+    intro p hx
+    by_cases hp : 0 ≤ p ∧ p < ((U s).length : Int)
+    · exfalso; apply hin
+      apply (clamp_charAt _ _ hl).2
+      refine ⟨p, hx, hp.1, hp.2, ?_⟩
+      rw [hx]; simp only [sat64]; split
+      · omega
+      · split <;> omega
+    · omega
+
+theorem unit_lt (s : List Nat) (i : Nat) (h : i < (U s).length) : (U s).getD i 0 < 0x10000 := by
+  apply utf16Encode_lt (decodeRunes s)
+  have : (U s).getD i 0 ∈ U s := by simp [List.getD, List.getElem?_eq_getElem h]
+  exact this
+
+/-- C09.charAt_strObj -/
+theorem charAt_strObj (E : Env) (s : List Nat) (args : List Val) (hs : SmallInt (argAt args 0))
+    (hl : ((U s).length : Int) < 2^62)
+    (hdev : ∀ u, Spec.charAt E (.strObj s) args = .str [u] → u ≠ 0xFFFD ∧ ¬ (0xD800 ≤ u ∧ u ≤ 0xDFFF)) :
+    charAt E (.strObj s) args = Spec.charAt E (.strObj s) args := by
+  have hspec : Spec.charAt E (.strObj s) args =
+      match Spec.toInteger E (argAt args 0) with
+      | .fin pos => if pos < 0 ∨ pos ≥ ((U s).length : Int) then .str [] else .str [(U s).getD pos.toNat 0]
+      | _ => .str [] := rfl
+  simp only [charAt, coercible, Bool.not_true, Bool.false_eq_true, if_false]
+  rcases stringAt_cases E s (argAt args 0) hs hl with ⟨p, hx, h0, h1, hat⟩ | ⟨hout, hat⟩
+  · rw [hat]
+    have hsp : Spec.charAt E (.strObj s) args = .str [(U s).getD p.toNat 0] := by
+      rw [hspec, hx]; simp only []; rw [if_neg (by omega)]
+    have hu := hdev _ hsp
+    have hlt := unit_lt s p.toNat (by omega)
+    rw [hsp, if_neg (by simpa [runeError] using hu.1)]
+    rw [U_encodeRune_unit _ (by unfold Scalar; omega) hlt]
+  · rw [hat, hspec]
+    simp only [if_true]
+    split
+    · rename_i pos hx; rw [if_pos (hout pos hx)]
+    · rfl
+/-! ## generic receiver -/
+
+/-- C09.generic_receiver (prologue): CheckObjectCoercible(this) fails exactly for undefined and null, and
+    otherwise ToString(this) is the code-unit view of what `call.This.string()` yields -/
+theorem thisString_link (E : Env) (r : Recv) (h : NoLone r) :
+    Spec.thisString E r = if coercible r then some (U (thisString E r)) else none := by
+  cases r with
+  | val v => cases v <;> rfl
+  | val16 us => simp only [NoLone] at h; simp [Spec.thisString, coercible, thisString, h]
+  | strObj s => rfl
+  | obj s => rfl
+
+theorem coercible_iff (r : Recv) : coercible r = false ↔ (r = .val .undef ∨ r = .val .null) := by
+  cases r with
+  | val v => cases v <;> simp [coercible]
+  | _ => simp [coercible]
+
+theorem withThis_eq (E : Env) (r : Recv) (h : NoLone r) (f : List Nat → Res) :
+    Spec.withThis E r f = if coercible r then f (U (thisString E r)) else .throwType := by
+  unfold Spec.withThis
+  rw [thisString_link E r h]
+  split <;> simp_all
+
+/-! ## slice / substring / substr -/
+
+/-- the model's optional second range argument -/
+def optEnd (E : Env) (v : Val) (size : Int) (nz : Bool) : Int :=
+  match v with
+  | .undef => size
+  | e => valueToRangeIndex (number E e).i size nz
+
+theorem argAt_one (args : List Val) (h : args.length = 1) : argAt args 1 = .undef := by
+  match args, h with
+  | [_], _ => rfl
+
+theorem rangeStartEnd_eq (E : Env) (args : List Val) (size : Int) (nz : Bool) :
+    rangeStartEnd E args size nz =
+      (valueToRangeIndex (number E (argAt args 0)).i size nz, optEnd E (argAt args 1) size nz) := by
+  unfold rangeStartEnd
+  by_cases hl : args.length = 1
+  · simp [hl, argAt_one args hl, optEnd]
+  · simp only [hl, if_false]
+    generalize argAt args 1 = e
+    cases e <;> rfl
+
+theorem optEnd_slice (E : Env) (v : Val) (L : Int) (h0 : 0 ≤ L) (h1 : L < 2^62) (hs : SmallInt v) :
+    optEnd E v L false = Spec.relIndex L (Spec.optPos E v (.fin L)) := by
+  have gen : valueToRangeIndex (number E v).i L false = Spec.relIndex L (Spec.toInteger E v) := by
+    rw [number_sat E v hs, clamp_slice _ _ h0 h1]
+  cases v with
+  | undef => simp only [optEnd, Spec.optPos, Spec.relIndex]; rw [if_neg (by omega)]; omega
+  | _ => exact gen
+
+theorem optEnd_substring (E : Env) (v : Val) (L : Int) (h0 : 0 ≤ L) (h1 : L < 2^62) (hs : SmallInt v) :
+    optEnd E v L true = Spec.clamp (Spec.optPos E v (.fin L)) 0 L := by
+  have gen : valueToRangeIndex (number E v).i L true = Spec.clamp (Spec.toInteger E v) 0 L := by
+    rw [number_sat E v hs, clamp_substring _ _ h0 h1]
+  cases v with
+  | undef => simp only [optEnd, Spec.optPos, Spec.clamp]; omega
+  | _ => exact gen
+
+theorem U_runeSlice (s : List Nat) (hb : NoAstral s) (a b : Int) :
+    U (encodeRunes (runeSlice (decodeRunes s) a b)) = runeSlice (decodeRunes s) a b := by
+  apply U_encodeRunes_bmp
+  intro r hr
+  have hm : r ∈ decodeRunes s := List.mem_of_mem_drop (List.mem_of_mem_take hr)
+  exact ⟨decodeRunes_scalar s r hm, hb r hm⟩
+
+theorem relIndex_range (L : Int) (x : EInt) (h0 : 0 ≤ L) : 0 ≤ Spec.relIndex L x ∧ Spec.relIndex L x ≤ L := by
+  cases x <;> simp only [Spec.relIndex] <;> (try split) <;> omega
+
+theorem clamp_range (L : Int) (x : EInt) (h0 : 0 ≤ L) : 0 ≤ Spec.clamp x 0 L ∧ Spec.clamp x 0 L ≤ L := by
+  cases x <;> simp only [Spec.clamp] <;> omega
+
+/-- C09.slice_bmp: for every receiver, every argument list and every string without astral code points,
+    otto's slice (rune offsets, saturated int64 positions) is ES5 §15.5.4.13 (code-unit offsets, ToInteger). -/
+theorem slice_bmp (E : Env) (r : Recv) (args : List Val) (hl : NoLone r)
+    (hb : NoAstral (thisString E r)) (hlen : ((decodeRunes (thisString E r)).length : Int) < 2^62)
+    (h0 : SmallInt (argAt args 0)) (h1 : SmallInt (argAt args 1)) :
+    slice E r args = Spec.slice E r args := by
+  unfold Spec.slice
+  rw [withThis_eq E r hl]
+  unfold slice
+  cases hc : coercible r with
+  | false => simp
+  | true =>
+    simp only [Bool.not_true, Bool.false_eq_true, if_false, if_true]
+    rw [U_bmp _ hb, rangeStartEnd_eq]
+    generalize hT : decodeRunes (thisString E r) = T at *
+    have hL0 : (0 : Int) ≤ (T.length : Int) := by omega
+    rw [optEnd_slice E _ _ hL0 hlen h1, number_sat E _ h0, clamp_slice _ _ hL0 hlen]
+    have ha := relIndex_range T.length (Spec.toInteger E (argAt args 0)) hL0
+    generalize Spec.relIndex (↑T.length) (Spec.toInteger E (argAt args 0)) = a at *
+    generalize Spec.relIndex (↑T.length) (Spec.optPos E (argAt args 1) (EInt.fin ↑T.length)) = b at *
+    simp only []
+    by_cases hle : b - a ≤ 0
+    · rw [if_pos hle]
+      have : (a + max (b - a) 0).toNat - a.toNat = 0 := by omega
+      simp [Spec.sub, this]
+    · rw [if_neg hle, ← hT, U_runeSlice _ hb, hT]
+      have : (a + max (b - a) 0).toNat - a.toNat = (b - a).toNat := by omega
+      simp [Spec.sub, runeSlice, this]
+
+/-- C09.substring_bmp: §15.5.4.15 -/
+theorem substring_bmp (E : Env) (r : Recv) (args : List Val) (hl : NoLone r)
+    (hb : NoAstral (thisString E r)) (hlen : ((decodeRunes (thisString E r)).length : Int) < 2^62)
+    (h0 : SmallInt (argAt args 0)) (h1 : SmallInt (argAt args 1)) :
+    substring E r args = Spec.substring E r args := by
+  unfold Spec.substring
+  rw [withThis_eq E r hl]
+  unfold substring
+  cases hc : coercible r with
+  | false => simp
+  | true =>
+    simp only [Bool.not_true, Bool.false_eq_true, if_false, if_true]
+    rw [U_bmp _ hb, rangeStartEnd_eq]
+    generalize hT : decodeRunes (thisString E r) = T at *
+    have hL0 : (0 : Int) ≤ (T.length : Int) := by omega
+    rw [optEnd_substring E _ _ hL0 hlen h1, number_sat E _ h0, clamp_substring _ _ hL0 hlen]
+    have ha := clamp_range T.length (Spec.toInteger E (argAt args 0)) hL0
+    have hb' := clamp_range T.length (Spec.optPos E (argAt args 1) (EInt.fin ↑T.length)) hL0
+    generalize Spec.clamp (Spec.toInteger E (argAt args 0)) 0 ↑T.length = a at *
+    generalize Spec.clamp (Spec.optPos E (argAt args 1) (EInt.fin ↑T.length)) 0 ↑T.length = b at *
+    simp only []
+    by_cases hgt : a > b
+    · rw [if_pos hgt]; simp only []
+      rw [← hT, U_runeSlice _ hb, hT]
+      have e1 : min a b = b := by omega
+      have e2 : max a b = a := by omega
+      have : a.toNat - b.toNat = (a - b).toNat := by omega
+      simp [Spec.sub, runeSlice, e1, e2, this]
+    · rw [if_neg hgt]; simp only []
+      rw [← hT, U_runeSlice _ hb, hT]
+      have e1 : min a b = a := by omega
+      have e2 : max a b = b := by omega
+      have : b.toNat - a.toNat = (b - a).toNat := by omega
+      simp [Spec.sub, runeSlice, e1, e2, this]
+
+theorem thisStringNoCheck_link (E : Env) (r : Recv) (h : NoLone r) :
+    Spec.thisStringNoCheck E r = U (thisString E r) := by
+  cases r with
+  | val v => rfl
+  | val16 us => simp only [NoLone] at h; simp [Spec.thisStringNoCheck, thisString, h]
+  | strObj s => rfl
+  | obj s => rfl
+
+/-- the model's optional length argument -/
+def optLen (E : Env) (v : Val) (size : Int) : Int :=
+  match v with
+  | .undef => size
+  | l => (number E l).i
+
+theorem rangeStartLength_eq (E : Env) (args : List Val) (size : Int) :
+    rangeStartLength E args size =
+      (valueToRangeIndex (number E (argAt args 0)).i size false, optLen E (argAt args 1) size) := by
+  unfold rangeStartLength
+  by_cases hl : args.length = 1
+  · simp [hl, argAt_one args hl, optLen]
+  · simp only [hl, if_false]
+    generalize argAt args 1 = e
+    cases e <;> rfl
+
+theorem wrap64_id (i : Int) (h0 : -(2^63 : Int) ≤ i) (h1 : i < 2^63) : wrap64 i = i := by
+  simp only [wrap64, wrapS]; split <;> omega
+
+theorem sat64_range (x : EInt) : -(2^63 : Int) ≤ sat64 x ∧ sat64 x < 2^63 := by
+  cases x <;> simp only [sat64, minInt64, maxInt64] <;> (try split) <;> (try split) <;> omega
+
+/-- the arithmetic core of substr: positions `s0` (already relative-clamped) and length `l`. -/
+theorem substr_core (L : Int) (x0 x1 : EInt) (hL0 : 0 ≤ L) (hL : L < 2^62) (undef1 : Bool)
+    (hov : Spec.relIndex L x0 + (if undef1 then L else sat64 x1) < 2^63) :
+    let start := Spec.relIndex L x0
+    let length := if undef1 then L else sat64 x1
+    let r5 : Int := Spec.substrStart L x0
+    let r6 := Spec.clamp (if undef1 then .pinf else x1) 0 (L - r5)
+    (start ≥ L ∨ length ≤ 0 → r6 ≤ 0) ∧
+    (¬ (start ≥ L ∨ length ≤ 0) →
+        let length' := if wrap64 (start + length) ≥ L then L - start else length
+        r6 > 0 ∧ r5 = start ∧ wrap64 (start + length') = start + r6 ∧ ¬ (wrap64 (start + length') < start)) := by
+  intro start length r5 r6
+  have hs := relIndex_range L x0 hL0
+  have hl := sat64_range x1
+  have hw : ∀ i : Int, -(2^63 : Int) ≤ i → i < 2^63 → wrap64 i = i := wrap64_id
+  have hstart : r5 ≥ L ∧ start ≥ L ∨ r5 = start := by
+    cases x0 with
+    | ninf => right; rfl
+    | pinf => left; simp only [r5, start, Spec.relIndex, Spec.substrStart]; omega
+    | fin i =>
+      simp only [r5, start, Spec.relIndex, Spec.substrStart, Int.max_def, Int.min_def]
+      repeat' split
+      all_goals omega
+  have hr6 : r6 = Spec.clamp (if undef1 then .pinf else x1) 0 (L - r5) := rfl
+  cases undef1 with
+  | true =>
+    simp only [if_true, Spec.clamp] at hr6
+    simp only [length, if_true] at hov ⊢
+    refine ⟨by intro h; omega, ?_⟩
+    intro h
+    rw [hw (start + L) (by omega) (by omega)]
+    rw [if_pos (by omega)]
+    rw [hw (start + (L - start)) (by omega) (by omega)]
+    omega
+  | false =>
+    simp only [Bool.false_eq_true, if_false] at hr6
+    simp only [length, Bool.false_eq_true, if_false] at hov ⊢
+    have hclamp : (sat64 x1 ≤ 0 → r6 ≤ 0) ∧ (sat64 x1 > 0 → L - r5 > 0 → r6 = min (sat64 x1) (L - r5)) := by
+      rw [hr6]
+      cases x1 <;> simp only [Spec.clamp, sat64, minInt64, maxInt64] <;> (try split) <;> (try split) <;> omega
+    refine ⟨by intro h; rw [hr6] at *; cases x1 <;> simp only [Spec.clamp, sat64, minInt64, maxInt64] at * <;> (try split at h) <;> (try split at h) <;> omega, ?_⟩
+    intro h
+    have h1 : start < L := by omega
+    have h2 : sat64 x1 > 0 := by omega
+    have h5 : r5 = start := by omega
+    have h6 := hclamp.2 h2 (by omega)
+    rw [hw (start + sat64 x1) (by omega) (by omega)]
+    by_cases hge : start + sat64 x1 ≥ L
+    · rw [if_pos hge, hw (start + (L - start)) (by omega) (by omega)]; omega
+    · rw [if_neg hge, hw (start + sat64 x1) (by omega) (by omega)]; omega
+
+theorem optLen_eq (E : Env) (v : Val) (L : Int) (hs : SmallInt v) :
+    optLen E v L = if v == .undef then L else sat64 (Spec.toInteger E v) := by
+  cases v <;> first | rfl | (simp only [optLen]; rw [number_sat E _ hs]; rfl)
+
+theorem optPos_eq (E : Env) (v : Val) (d : EInt) :
+    Spec.optPos E v d = if v == .undef then d else Spec.toInteger E v := by
+  cases v <;> rfl
+
+/-- C09.substr_bmp: Annex B.2.3, outside the int64 overflow region `substr_overflow_panic` -/
+theorem substr_bmp (E : Env) (r : Recv) (args : List Val) (hl : NoLone r)
+    (hb : NoAstral (thisString E r)) (hlen : ((decodeRunes (thisString E r)).length : Int) < 2^62)
+    (h0 : SmallInt (argAt args 0)) (h1 : SmallInt (argAt args 1))
+    (hov : (rangeStartLength E args (decodeRunes (thisString E r)).length).1 +
+           (rangeStartLength E args (decodeRunes (thisString E r)).length).2 < 2^63) :
+    substr E r args = Spec.substr E r args := by
+  unfold Spec.substr substr
+  rw [thisStringNoCheck_link E r hl, U_bmp _ hb]
+  dsimp only
+  rw [rangeStartLength_eq] at hov ⊢
+  dsimp only at hov ⊢
+  generalize hT : decodeRunes (thisString E r) = T at *
+  have hL0 : (0 : Int) ≤ (T.length : Int) := by omega
+  rw [optLen_eq E _ _ h1, number_sat E _ h0, clamp_slice _ _ hL0 hlen] at hov
+  rw [optLen_eq E _ _ h1, number_sat E _ h0, clamp_slice _ _ hL0 hlen, optPos_eq]
+  have core := substr_core T.length (Spec.toInteger E (argAt args 0)) (Spec.toInteger E (argAt args 1)) hL0 hlen
+    (argAt args 1 == .undef) hov
+  simp only [] at core ⊢
+  have hs := relIndex_range T.length (Spec.toInteger E (argAt args 0)) hL0
+  generalize Spec.relIndex (↑T.length) (Spec.toInteger E (argAt args 0)) = a at *
+  generalize (if (argAt args 1 == Val.undef) = true then (T.length : Int) else sat64 (Spec.toInteger E (argAt args 1))) = l at *
+  generalize Spec.substrStart (↑T.length) (Spec.toInteger E (argAt args 0)) = r5 at *
+  generalize Spec.clamp _ 0 _ = r6 at *
+  obtain ⟨c1, c2⟩ := core
+  by_cases hA : a ≥ ↑T.length
+  · rw [if_pos hA, if_pos (c1 (Or.inl hA))]
+  · rw [if_neg hA]
+    by_cases hB : l ≤ 0
+    · rw [if_pos hB, if_pos (c1 (Or.inr hB))]
+    · rw [if_neg hB]
+      obtain ⟨d1, d2, d3, d4⟩ := c2 (by omega)
+      have d1' : ¬ r6 ≤ 0 := by omega
+      rw [if_neg d4, d3, if_neg d1', d2]
+      rw [← hT, U_runeSlice _ hb, hT]
+      have : (a + r6).toNat - a.toNat = (a + r6 - a).toNat := by omega
+      simp [Spec.sub, runeSlice, this]
+
+/-- C09.charCodeAt_strObj -/
+theorem charCodeAt_strObj (E : Env) (s : List Nat) (args : List Val) (hs : SmallInt (argAt args 0))
+    (hl : ((U s).length : Int) < 2^62)
+    (hdev : Spec.charCodeAt E (.strObj s) args ≠ .int 0xFFFD) :
+    charCodeAt E (.strObj s) args = Spec.charCodeAt E (.strObj s) args := by
+  have hspec : Spec.charCodeAt E (.strObj s) args =
+      match Spec.toInteger E (argAt args 0) with
+      | .fin pos => if pos < 0 ∨ pos ≥ ((U s).length : Int) then .nan else .int ((U s).getD pos.toNat 0)
+      | _ => .nan := rfl
+  simp only [charCodeAt, coercible, Bool.not_true, Bool.false_eq_true, if_false]
+  rcases stringAt_cases E s (argAt args 0) hs hl with ⟨p, hx, h0, h1, hat⟩ | ⟨hout, hat⟩
+  · rw [hat]
+    have hsp : Spec.charCodeAt E (.strObj s) args = .int ((U s).getD p.toNat 0) := by
+      rw [hspec, hx]; simp only []; rw [if_neg (by omega)]
+    rw [hsp] at hdev ⊢
+    rw [if_neg]
+    intro h; apply hdev; rw [h]; rfl
+  · rw [hat, hspec]
+    simp only [if_true]
+    split
+    · rename_i pos hx; rw [if_pos (hout pos hx)]
+    · rfl
+
+/-- C09.length_strObj: the `length` own property of a String object counts code units -/
+theorem length_strObj (E : Env) (s : List Nat) : length E (.strObj s) = Spec.length E (.strObj s) := by
+  simp [length, Spec.length, strLength_eq]
+
+/-- C09.fromCharCode_eq: String.fromCharCode is unit-exact wherever ToUint16 is (C05 region toInt_big) -/
+theorem fromCharCode_eq (E : Env) (args : List Val)
+    (h : ∀ v ∈ args, toUint16 E.c5 v = C05.Spec.toUint16 E.c5 v) :
+    fromCharCode E args = Spec.fromCharCode E args := by
+  simp only [fromCharCode, Spec.fromCharCode, Res.str.injEq]
+  apply List.map_congr_left
+  intro v hv; rw [h v hv]
+
+/-- C09.generic_receiver: every generic method throws TypeError exactly for an undefined or null receiver
+    (charAt/charCodeAt included; substr never checks, as Annex B.2.3 prescribes) -/
+theorem generic_receiver (E : Env) (r : Recv) (args : List Val) :
+    (coercible r = false ↔ (r = .val .undef ∨ r = .val .null)) ∧
+    (coercible r = false →
+      charAt E r args = .throwType ∧ charCodeAt E r args = .throwType ∧ concat E r args = .throwType ∧
+      indexOf E r args = .throwType ∧ lastIndexOf E r args = .throwType ∧ slice E r args = .throwType ∧
+      substring E r args = .throwType ∧ split E r args = .throwType ∧ trim E r args = .throwType ∧
+      localeCompare E r args = .throwType ∧ Spec.thisString E r = none) ∧
+    (coercible r = true →
+      concat E r args ≠ .throwType ∧ slice E r args ≠ .throwType ∧ substring E r args ≠ .throwType ∧
+      trim E r args ≠ .throwType ∧ localeCompare E r args ≠ .throwType ∧ substr E r args ≠ .throwType ∧
+      Spec.thisString E r ≠ none) := by
+  refine ⟨coercible_iff r, ?_, ?_⟩
+  · intro h
+    have hn : Spec.thisString E r = none := by
+      rcases (coercible_iff r).1 h with h | h <;> subst h <;> rfl
+    simp [charAt, charCodeAt, concat, indexOf, lastIndexOf, slice, substring, split, trim, localeCompare, h, hn]
+  · intro h
+    have hn : Spec.thisString E r ≠ none := by
+      cases r with
+      | val v => cases v <;> simp_all [coercible, Spec.thisString]
+      | _ => simp [Spec.thisString]
+    refine ⟨?_, ?_, ?_, ?_, ?_, ?_, hn⟩
+    · simp [concat, h]
+    · simp only [slice, h, Bool.not_true, Bool.false_eq_true, if_false]; split <;> simp
+    · simp [substring, h]
+    · simp [trim, h]
+    · simp only [localeCompare, h, Bool.not_true, Bool.false_eq_true, if_false]; split <;> (try split) <;> simp
+    · simp only [substr]; repeat' split
+      all_goals simp
+
+/-! ## localeCompare: a consistent total order (§15.5.4.9) -/
+
+theorem bytesLt_irrefl : ∀ a : List Nat, bytesLt a a = false
+  | [] => rfl
+  | x :: xs => by simp [bytesLt, bytesLt_irrefl xs]
+
+theorem bytesLt_asymm : ∀ a b : List Nat, bytesLt a b = true → bytesLt b a = false
+  | [], [] => by simp [bytesLt]
+  | [], _ :: _ => by simp [bytesLt]
+  | _ :: _, [] => by simp [bytesLt]
+  | x :: xs, y :: ys => by
+    simp only [bytesLt]
+    intro h
+    by_cases h1 : x < y
+    · have : ¬ y < x := by omega
+      have : y > x := h1
+      simp [*]
+    · by_cases h2 : x > y
+      · simp [h1, h2] at h
+      · have : x = y := by omega
+        subst this
+        simp only [h1, if_false, gt_iff_lt] at h ⊢
+        exact bytesLt_asymm xs ys h
+
+theorem bytesLt_total : ∀ a b : List Nat, bytesLt a b = false → bytesLt b a = false → a = b
+  | [], [] => by simp
+  | [], _ :: _ => by simp [bytesLt]
+  | _ :: _, [] => by simp [bytesLt]
+  | x :: xs, y :: ys => by
+    simp only [bytesLt]
+    intro h h'
+    by_cases h1 : x < y
+    · simp [h1] at h
+    · by_cases h2 : y < x
+      · simp [h2] at h'
+      · have : x = y := by omega
+        subst this
+        simp only [h1, if_false, gt_iff_lt] at h h'
+        rw [bytesLt_total xs ys h h']
+
+theorem bytesLt_trans : ∀ a b c : List Nat, bytesLt a b = true → bytesLt b c = true → bytesLt a c = true
+  | [], _, [] => by intro h h'; cases ‹List Nat› <;> simp [bytesLt] at h h'
+  | [], _, _ :: _ => by simp [bytesLt]
+  | _ :: _, [], _ => by simp [bytesLt]
+  | _ :: _, _ :: _, [] => by simp [bytesLt]
+  | x :: xs, y :: ys, z :: zs => by
+    simp only [bytesLt]
+    intro h h'
+    by_cases xy : x < y
+    · by_cases yz : y < z
+      · have : x < z := by omega
+        simp [this]
+      · by_cases zy : y > z
+        · simp [yz, zy] at h'
+        · have : y = z := by omega
+          subst this; simp [xy]
+    · by_cases yx : x > y
+      · simp [xy, yx] at h
+      · have : x = y := by omega
+        subst this
+        simp only [xy, if_false, gt_iff_lt] at h
+        by_cases yz : x < z
+        · simp [yz]
+        · by_cases zy : z < x
+          · simp [yz, zy] at h'
+          · simp only [yz, zy, if_false, gt_iff_lt] at h' ⊢
+            exact bytesLt_trans xs ys zs h h'
+
+/-- the integer localeCompare returns for two Go strings -/
+def cmp (a b : List Nat) : Int := if bytesLt a b then -1 else if a = b then 0 else 1
+
+/-- C09.localeCompare_sign: on a coercible receiver localeCompare returns cmp(this, that) ∈ {−1, 0, 1};
+    cmp is 0 exactly for equal strings, antisymmetric and transitive — the "consistent comparison
+    function" §15.5.4.9 asks for. -/
+theorem localeCompare_sign (E : Env) (r : Recv) (args : List Val) (h : coercible r = true) :
+    localeCompare E r args = .int (cmp (thisString E r) (toStr E (argAt args 0))) := by
+  simp only [localeCompare, h, Bool.not_true, Bool.false_eq_true, if_false, cmp]
+  split <;> (try split) <;> rfl
+
+theorem cmp_props (a b c : List Nat) :
+    (cmp a b = -1 ∨ cmp a b = 0 ∨ cmp a b = 1) ∧ (cmp a b = 0 ↔ a = b) ∧ (cmp b a = -(cmp a b)) ∧
+    (cmp a b = -1 → cmp b c = -1 → cmp a c = -1) := by
+  refine ⟨?_, ?_, ?_, ?_⟩
+  · unfold cmp; split <;> (try split) <;> simp
+  · unfold cmp; constructor
+    · intro h; split at h
+      · omega
+      · split at h
+        · assumption
+        · omega
+    · intro h; subst h; simp [bytesLt_irrefl]
+  · unfold cmp
+    by_cases h1 : bytesLt a b = true
+    · have h2 := bytesLt_asymm a b h1
+      have hne : ¬ b = a := by intro e; subst e; simp [bytesLt_irrefl] at h1
+      simp [h1, h2, hne]
+    · have h1' : bytesLt a b = false := by simpa using h1
+      by_cases h2 : bytesLt b a = true
+      · have hne : ¬ a = b := by intro e; subst e; simp [bytesLt_irrefl] at h2
+        simp [h1', h2, hne]
+      · have h2' : bytesLt b a = false := by simpa using h2
+        have := bytesLt_total a b h1' h2'
+        subst this; simp [h1']
+  · unfold cmp
+    intro h h'
+    have hab : bytesLt a b = true := by
+      split at h
+      · assumption
+      · split at h <;> omega
+    have hbc : bytesLt b c = true := by
+      split at h'
+      · assumption
+      · split at h' <;> omega
+    simp [bytesLt_trans a b c hab hbc]
+
+/-! ## Deviation regions: kernel-checked witnesses (each is replayed on the real code by the harness) -/
+
+/-- a parameter instance for the witnesses (no string→number or number→string conversion occurs) -/
+def E0 : Env := { c5 := { pn := fun _ => .nan }, numStr := fun _ => [] }
+def num (n : Nat) : Val := .f64 (.fin false n 0)
+def sABC : List Nat := [0x61, 0x62, 0x63]
+def sAEB : List Nat := [0x61, 0xC3, 0xA9, 0x62]                    -- "aéb"
+def sAXB : List Nat := [0x61, 0xF0, 0x9D, 0x92, 0xB3, 0x62]        -- "a𝒳b" (U+1D4B3)
+
+set_option maxRecDepth 4000
+
+-- rune_offsets: "a𝒳b".slice(1,2) / .substring(2,3) / .substr(2,1)
+example : slice E0 (.strObj sAXB) [num 1, num 2] ≠ Spec.slice E0 (.strObj sAXB) [num 1, num 2] := by decide
+example : substring E0 (.strObj sAXB) [num 2, num 3] ≠ Spec.substring E0 (.strObj sAXB) [num 2, num 3] := by decide
+example : substr E0 (.strObj sAXB) [num 2, num 1] ≠ Spec.substr E0 (.strObj sAXB) [num 2, num 1] := by decide
+-- charAt_fffd: "�".charCodeAt(0), .charAt(0), [0]
+example : charCodeAt E0 (.strObj [0xEF, 0xBF, 0xBD]) [num 0] ≠ Spec.charCodeAt E0 (.strObj [0xEF, 0xBF, 0xBD]) [num 0] := by decide
+example : charAt E0 (.strObj [0xEF, 0xBF, 0xBD]) [num 0] ≠ Spec.charAt E0 (.strObj [0xEF, 0xBF, 0xBD]) [num 0] := by decide
+example : index E0 (.strObj [0xEF, 0xBF, 0xBD]) (.str [0x30]) ≠ Spec.index E0 (.strObj [0xEF, 0xBF, 0xBD]) (.str [0x30]) := by decide
+-- charAt_surrogate: "𝒳".charAt(0)
+example : charAt E0 (.strObj [0xF0, 0x9D, 0x92, 0xB3]) [num 0] ≠ Spec.charAt E0 (.strObj [0xF0, 0x9D, 0x92, 0xB3]) [num 0] := by decide
+-- charAt_receiver_panic: String.prototype.charAt.call("abc", 1)
+example : charAt E0 (.val (.str sABC)) [num 1] = .panic ∧ Spec.charAt E0 (.val (.str sABC)) [num 1] = .str [0x62] := by decide
+-- call_undefined_this: String.prototype.trim.call(undefined)
+example : trim E0 (callThis (.val .undef)) [] ≠ Spec.trim E0 (.val .undef) [] := by decide
+-- lone_surrogate: String.fromCharCode(0xD800).concat()
+example : concat E0 (.val16 [0xD800]) [] ≠ Spec.concat E0 (.val16 [0xD800]) [] := by decide
+-- index_noncanonical: "abc"["01"]
+example : index E0 (.strObj sABC) (.str [0x30, 0x31]) ≠ Spec.index E0 (.strObj sABC) (.str [0x30, 0x31]) := by decide
+-- substr_overflow_panic: "abc".substr(1, Infinity)
+example : substr E0 (.strObj sABC) [num 1, .f64 (.inf false)] = .panic ∧
+    Spec.substr E0 (.strObj sABC) [num 1, .f64 (.inf false)] = .str [0x62, 0x63] := by decide
+-- indexOf_byte_offset: "aéb".indexOf("b", 2)
+example : indexOf E0 (.strObj sAEB) [.str [0x62], num 2] = .int 3 ∧ Spec.indexOf E0 (.strObj sAEB) [.str [0x62], num 2] = .int 2 := by decide
+-- lastIndexOf_byte_offset: "aéb".lastIndexOf("b", 2)
+example : lastIndexOf E0 (.strObj sAEB) [.str [0x62], num 2] = .int (-1) ∧ Spec.lastIndexOf E0 (.strObj sAEB) [.str [0x62], num 2] = .int 2 := by decide
+-- lastIndexOf_nan / lastIndexOf_neginf: "abc".lastIndexOf("c", NaN) / (…, -Infinity)
+example : lastIndexOf E0 (.strObj sABC) [.str [0x63], .f64 .nan] = .int (-1) ∧ Spec.lastIndexOf E0 (.strObj sABC) [.str [0x63], .f64 .nan] = .int 2 := by decide
+example : lastIndexOf E0 (.strObj sABC) [.str [0x63], .f64 (.inf true)] = .int 2 ∧ Spec.lastIndexOf E0 (.strObj sABC) [.str [0x63], .f64 (.inf true)] = .int (-1) := by decide
+-- lastIndexOf_overflow_panic: "abc".lastIndexOf("c", 2^63)
+example : lastIndexOf E0 (.strObj sABC) [.str [0x63], .f64 (.fin false 1 63)] = .panic ∧
+    Spec.lastIndexOf E0 (.strObj sABC) [.str [0x63], .f64 (.fin false 1 63)] = .int 2 := by decide
+-- split_empty_sep_astral: "a𝒳b".split("")
+example : split E0 (.strObj sAXB) [.str []] ≠ Spec.split E0 (.strObj sAXB) [.str []] := by decide
+-- toUint_big: String.fromCharCode(2^63 + 2048)
+example : fromCharCode E0 [.f64 (.fin false (2^52 + 1) 11)] = .str [0] ∧
+    Spec.fromCharCode E0 [.f64 (.fin false (2^52 + 1) 11)] = .str [2048] := by decide
+
+/-! ## Non-vacuity of the side conditions -/
+example : NoAstral sAEB ∧ NoLone (.strObj sAEB) ∧ SmallInt (num 2) ∧ SmallInt (.int .i64 7) ∧ ¬ NoAstral sAXB := by
+  refine ⟨by unfold NoAstral; decide, trivial, trivial, by show (7 : Int).natAbs < 2^53; decide, by unfold NoAstral; decide⟩
+example : slice E0 (.strObj sAEB) [num 1, num 2] = .str [0xE9] := by decide
 
 end OttoVerif.C09.Thm
